@@ -584,6 +584,12 @@ pub fn run_seq(ctx: &mut Ctx, scn: &StoreScn) {
         ctx.sim.probe("pool_size_0");
     }
     ctx.sig(mix(opsig, fnv1a(format!("{:?}", (scn.cfg.max_file_size, scn.cfg.cache, scn.cfg.pool)).as_bytes())));
+    if scn.cfg.merge_always {
+        let me = ctx.me;
+        if fsim::with_fs(ctx.sim, |fs| fs.log.iter().any(|r| r.op == IoOp::Create && r.res >= 0 && r.tid != me && fs.path_name(r.path).ends_with(".hint"))) {
+            ctx.sim.probe("timer_merge_ran");
+        }
+    }
     // end of workload
     if ctx.out.violations.is_empty() && st.store.is_some() {
         if or.model {
@@ -853,7 +859,9 @@ fn do_reopen(ctx: &mut Ctx, st: &mut SeqState, scn: &StoreScn, or: &Oracles, i: 
             Err(e) => ctx.viol("op-failed", format!("scan after reopen op#{}: {}", i, e), ""),
         }
     }
-    if or.reopen && !wrote {
+    // (with timer-driven merging configured the store may rewrite its files on its own; the
+    // file-level clause is for stores that only change through client writes)
+    if or.reopen && !wrote && !cfg.merge_always && !scn.cfg.merge_always {
         ctx.sim.probe("reopen_without_writes");
         let after_img = dir_image(ctx.sim, &rel, u64::MAX);
         let after_nonempty: BTreeMap<String, usize> = after_img.iter().filter(|(n, b)| n.ends_with(".data") && !b.is_empty()).map(|(n, b)| (n.clone(), b.len())).collect();
@@ -947,6 +955,12 @@ fn check_accounting(ctx: &mut Ctx, st: &SeqState, i: usize) {
         Some(s) => s,
         None => return,
     };
+    check_accounting_with(ctx, s, &st.model, &format!("after op#{}", i))
+}
+
+/// The index and the per-file counters of a quiet store against ground truth (the independent
+/// scan of its files) and the model of its contents.
+fn check_accounting_with(ctx: &mut Ctx, s: &Store, model: &Model, when: &str) {
     let d = s.h.verif_dump();
     let img = dir_image(ctx.sim, &s.rel, u64::MAX);
     let t = scan::truth_of(&img);
@@ -958,27 +972,27 @@ fn check_accounting(ctx: &mut Ctx, st: &SeqState, i: usize) {
     }
     // index == model keys, each entry is the newest on-disk record and decodes to the model value
     let idx: BTreeMap<Vec<u8>, (u64, u64, u64)> = d.index.iter().map(|e| (e.key.clone(), (e.fileid, e.pos, e.len))).collect();
-    let mk: BTreeSet<&Vec<u8>> = st.model.keys().collect();
+    let mk: BTreeSet<&Vec<u8>> = model.keys().collect();
     let ik: BTreeSet<&Vec<u8>> = idx.keys().collect();
     if mk != ik {
         let extra: Vec<String> = ik.difference(&mk).map(|k| hex(k)).collect();
         let missing: Vec<String> = mk.difference(&ik).map(|k| hex(k)).collect();
         let sg = if !extra.is_empty() && missing.is_empty() { "index-has-deleted-key" } else { "" };
-        ctx.viol("index-keys", format!("after op#{} the index holds keys {:?} that are not live and lacks live keys {:?}", i, extra, missing), sg);
+        ctx.viol("index-keys", format!("{} the index holds keys {:?} that are not live and lacks live keys {:?}", when, extra, missing), sg);
         return;
     }
     for (k, (f, p, l)) in &idx {
         let recs = match t.files.get(f) {
             Some(r) => r,
             None => {
-                ctx.viol("index-location", format!("after op#{} the index entry of {} points to file {} which does not exist", i, hex(k), f), "");
+                ctx.viol("index-location", format!("{} the index entry of {} points to file {} which does not exist", when, hex(k), f), "");
                 return;
             }
         };
         match recs.iter().find(|r| r.pos == *p) {
-            Some(r) if r.len == *l && &r.key == k && r.value.as_ref() == st.model.get(k) => {}
+            Some(r) if r.len == *l && &r.key == k && r.value.as_ref() == model.get(k) => {}
             other => {
-                ctx.viol("index-location", format!("after op#{} the index entry of {} = (file {}, pos {}, len {}) is not the record holding its current value (found {:?})", i, hex(k), f, p, l, other.map(|r| (r.pos, r.len, hex(&r.key)))), "");
+                ctx.viol("index-location", format!("{} the index entry of {} = (file {}, pos {}, len {}) is not the record holding its current value (found {:?})", when, hex(k), f, p, l, other.map(|r| (r.pos, r.len, hex(&r.key)))), "");
                 return;
             }
         }
@@ -999,7 +1013,7 @@ fn check_accounting(ctx: &mut Ctx, st: &SeqState, i: usize) {
             let sg = if underflow { "counter-underflow" } else { "" };
             ctx.viol(
                 "accounting",
-                format!("after op#{} file {} is accounted as live={} dead={} dead_bytes={} but really holds live={} dead={} dead_bytes={} ({} records)", i, id, sl, sd, sb, live, dead, dead_bytes, recs.len()),
+                format!("{} file {} is accounted as live={} dead={} dead_bytes={} but really holds live={} dead={} dead_bytes={} ({} records)", when, id, sl, sd, sb, live, dead, dead_bytes, recs.len()),
                 sg,
             );
             return;
@@ -2203,6 +2217,18 @@ pub fn run_conc(ctx: &mut Ctx, scn: &StoreScn) {
     if ctx.out.violations.is_empty() {
         evs.retain(|e| e.error.is_none());
         check_history(ctx, &scn.keys, &evs);
+    }
+    // C19: after a concurrent history, with every thread joined and no timer-driven merging
+    // configured, the counters must equal ground truth (the final scan gives the contents)
+    if ctx.out.violations.is_empty() && Oracles::for_check(&ctx.check).accounting && !scn.cfg.merge_always {
+        let mut model = Model::new();
+        for e in evs.iter().filter(|e| e.thread == 99) {
+            if let Some(v) = &e.got {
+                model.insert(scn.keys[e.key].clone(), v.clone());
+            }
+        }
+        ctx.sim.probe("accounting_compared_after_concurrent_history");
+        check_accounting_with(ctx, &store, &model, "after the concurrent history (every thread joined)");
     }
     // observation hash: results in program order per thread
     evs.sort_by_key(|e| (e.thread, e.idx));
